@@ -133,6 +133,10 @@ def gen_init(rng, a):
         if c == "seq" and rng.random() < 0.25:
             # clear-before-assign: the earlier content is discarded once, at the first use - whatever it was (also nothing)
             a.clear = True
+        if c == "seq" and rng.random() < 0.2:
+            # unique data: duplicates are dropped or (as error) refused; lines with a refused duplicate are not generated as valid
+            a.unique = True
+            a.uniqueerr = rng.random() < 0.5
 
 
 def add_rules(rng, cfg, profile):
